@@ -1,5 +1,6 @@
 import StamModel.Driver.Rel
 import StamModel.Driver.Off
+import StamModel.Driver.U8
 /-
   Line-protocol driver: one request per line on stdin, one answer per line on stdout.
   Built as the `stamdriver` executable (core Lean only).
@@ -10,6 +11,7 @@ def step (line : String) : String :=
   match (line.trimAscii.toString.splitOn " ") with
   | "rel" :: args => rel args
   | "off" :: args => off args
+  | "u8" :: args => u8 args
   | ["reset"] => "ok"
   | _ => "bad-op"
 
